@@ -52,6 +52,7 @@ func (p *Provider) start(ctx context.Context, ammoFile afero.File) error {
 	var ammoNum, passNum int
 	for {
 		passNum++
+		ammoNumBeforePass := ammoNum
 		scanner := bufio.NewScanner(ammoFile)
 		if p.Config.MaxAmmoSize != 0 {
 			var buffer []byte
@@ -80,6 +81,11 @@ func (p *Provider) start(ctx context.Context, ammoFile afero.File) error {
 		err := scanner.Err()
 		if err != nil {
 			return errors.Wrap(err, "gPRC Provider scan() err")
+		}
+		if p.Passes == 0 && ammoNum == ammoNumBeforePass && (p.Limit == 0 || ammoNum < p.Limit) {
+			// Whole pass gave nothing (empty file, or chosencases matched no entry) and passes
+			// are not limited: next passes will give nothing too, don't rescan file forever.
+			return errors.New("no ammo in file")
 		}
 		if p.Passes != 0 && passNum >= p.Passes {
 			break
